@@ -97,12 +97,25 @@ impl ContinuityStore {
             ret is Ok ==> exists|s: u64| #![auto] appended(run.continuity_id@, s) && advanced(run.continuity_id@, (s + 1) as u64),   // [append_tool_side_effects.appended_then_advanced]
     //@@ end
 
-    //@@ fn crates/ripd/src/continuities.rs ContinuityStore::create_continuity rules=R9
+    //@@ fn crates/ripd/src/continuities.rs ContinuityStore::create_continuity
     //@@ sig
         requires continuity_id matches Some(id) ==> reserved(id@, 0),
         ensures
             ret matches Ok(id) ==> appended(id@, 0),                                       // [create_continuity.creation_frame_at_seq0]
             ret matches Ok(id) ==> (continuity_id matches Some(given) ==> id@ == given@),  // [create_continuity.id_frame]
+    //@@ end
+
+    // creation under the caller's guard: frame 0 with the reserved seq, counter set to 1 through the SAME guard, and only for a
+    // thread id the guard does not know yet
+    //@@ fn crates/ripd/src/continuities.rs ContinuityStore::create_continuity_locked rules=R9
+    //@@ rewrite &mut HashMap<String, u64> => &mut SeqGuard
+    //@@ sig
+        requires continuity_id matches Some(id) ==> reserved(id@, 0),
+        ensures
+            ret matches Ok(id) ==> appended(id@, 0) && reserved(id@, 1),                                                  // [create_continuity.creation_frame_at_seq0]
+            ret matches Ok(id) ==> (continuity_id matches Some(given) ==> id@ == given@),                                    // [create_continuity.id_frame]
+            ret matches Ok(id) ==> !old(next_seq)@.contains_key(id@) && final(next_seq)@ == old(next_seq)@.insert(id@, 1),   // [create_continuity.counter_set_to_one_under_the_same_guard]
+            ret is Err ==> final(next_seq)@ == old(next_seq)@,
     //@@ closure 0
         -> (r: String) ensures reserved(r@, 0)
     //@@ end
